@@ -25,6 +25,7 @@ import (
 	"time"
 
 	sdk "github.com/alephium/go-sdk"
+	gossipv1 "github.com/alephium/wormhole-fork/node/pkg/proto/gossip/v1"
 	"go.uber.org/zap"
 )
 
@@ -142,6 +143,188 @@ func (g *fgen) genHunconf(n int) {
 }
 
 // ---------------------------------------------------------------------------------------------
+// metadata histories: "whatever the node reports about the contracts it names". An attestation-shaped event of a foreign sender
+// names token id X while X's metadata calls fail (every failing answer the harness knows, in turn); later - same process, same
+// Watcher, same Client - X answers, and the token bridge's genuine attestation of X must be delivered and forwarded by the
+// polling path and by the re-observation path.
+//
+//   wti    <id> ti=<table>                         the token contracts answer differently from now on
+//   wreobs <id> (fields of a `reobs` line)         one re-observation request through the life's real handleObsvRequest loop
+
+// setShape: token t's contract answers with `shape` from now on.
+func (r *watchRun) setShape(t *tokenTruth, shape string) {
+	n := r.g.node
+	t.shape = shape
+	n.mu.Lock()
+	n.ti[contractAddressOf(t.token)] = tiAnswer{shape}
+	n.mu.Unlock()
+	r.g.emit("wti %s ti=%s", r.id, r.c.renderTiAddr())
+}
+
+// registerTx: what the node says about e's transaction when asked by tx id (confirmed in e's block; e emitted by `contract`).
+func (r *watchRun) registerTx(e *evSpec, contract string) {
+	n := r.g.node
+	c := *e
+	c.contract = contract
+	n.mu.Lock()
+	n.status[e.tx] = "c:" + e.bh
+	n.txev[e.tx] = append(n.txev[e.tx], &c)
+	n.mu.Unlock()
+}
+
+// reobserve sends one re-observation request for tx to the life's handleObsvRequest loop and waits until it has been handled
+// (the loop takes the second, foreign-chain request only when it is back in its select).
+func (r *watchRun) reobserve(tx string) {
+	g, n := r.g, r.g.node
+	if !r.reobs || r.exited {
+		panic("verif harness: reobserve on a life without a re-observation loop")
+	}
+	txb, _ := hex.DecodeString(tx)
+	n.takeLog()
+	n.mu.Lock()
+	status := n.status[tx]
+	evs := n.txev[tx]
+	var hs, ms []string
+	seen := map[string]bool{}
+	for _, e := range evs {
+		if seen[e.bh] {
+			continue
+		}
+		seen[e.bh] = true
+		h := n.hdr[e.bh]
+		hs = append(hs, fmt.Sprintf("%s:%d:%d", e.bh, h.height, h.ts))
+		ms = append(ms, e.bh+":"+fb(n.main[e.bh]))
+	}
+	line := fmt.Sprintf("mainnet=%s bridge=%s gov=%s chain=255 hash=%s status=%s evs=%s hdr=%s main=%s ti=%s height=%d",
+		fb(r.c.mainnet), hex.EncodeToString(r.c.bridge), r.c.gov, tx, status, renderEvs(evs), fjoin(hs, ","), fjoin(ms, ","), r.c.renderTiAddr(), n.height)
+	n.mu.Unlock()
+	now := time.Now().UnixMilli()
+	res := "ok"
+	send := func(req *gossipv1.ObservationRequest) bool {
+		select {
+		case r.obsC <- req:
+			return true
+		case <-r.panicC:
+			r.exited, r.panicked = true, true
+			res = "panic"
+			return false
+		}
+	}
+	if send(&gossipv1.ObservationRequest{ChainId: 255, TxHash: txb}) {
+		send(&gossipv1.ObservationRequest{ChainId: 0})
+	}
+	g.emit("wreobs %s %s now=%d reqs=%s fwd=%s res=%s", r.id, line, now, fjoin(n.takeLog(), ","), fjoin(drainPubs(r.msgC), ","), res)
+}
+
+func (g *fgen) metaCase(shapeIdx int, variant int) {
+	r := g.newWatchRun("meta", true, false)
+	r.reobs = true
+	n := g.node
+	// X: a token whose contract will answer healthily later; until then its metadata calls fail in the given way
+	x := g.newToken(false)
+	okShape := x.shape
+	fails := append(degradedShapes(hex.EncodeToString(x.symbol), hex.EncodeToString(x.name), x.decimals, okShape), "e400", "e404")
+	fail := fails[shapeIdx%len(fails)]
+	x.shape = fail
+	r.c.tokens[0] = x
+	n.mu.Lock()
+	n.ti = map[string]tiAnswer{}
+	n.mu.Unlock()
+	r.c.installTokens(n)
+	r.start("")
+	h := int32(1000)
+	n.mu.Lock()
+	n.height = h
+	n.mu.Unlock()
+	tick := func(evs []*evSpec) {
+		if !r.exited {
+			r.fetchTickEvs(tickScript{newVisible: len(evs), pageSize: g.pick(1, 2, 100), pageErr: -1}, evs)
+		}
+	}
+	height := func(drain bool) {
+		if !r.exited {
+			h++
+			r.heightTick(h, drain)
+		}
+	}
+	reobs := func(tx string) {
+		if !r.exited {
+			r.reobserve(tx)
+		}
+	}
+	poisonPoll, poisonReobs := variant%3 != 1, variant%3 != 0
+	// 1. the foreign event naming X (anyone can publish on the governance contract): sender foreign or one bit off the token bridge,
+	// metadata faithful to what X will report, or not
+	foreign := g.bytesN(32)
+	if g.chance(30) {
+		foreign = append([]byte{}, r.c.bridge...)
+		foreign[g.r.Intn(32)] ^= 1 << uint(g.r.Intn(8))
+	}
+	how := []string{"ok", "ok", "decimals", "symbol", "name"}[g.r.Intn(5)]
+	ef := r.mkEvent(r.oldBlock(), msgSpec{sender: foreign, tc: 0, seq: uint64(g.r.Intn(1000)), nonce: g.r.Uint32(), cl: uint8(g.r.Intn(3)), payload: g.attestFor(x, how)})
+	r.registerTx(ef, r.c.gov)
+	if poisonPoll {
+		evs := []*evSpec{ef}
+		if g.chance(50) {
+			evs = append(r.quickEvents(1), ef)
+		}
+		tick(evs)
+		height(false)
+	}
+	if poisonReobs {
+		reobs(ef.tx)
+		if g.chance(30) {
+			reobs(ef.tx)
+		}
+	}
+	if variant%4 == 3 && !r.exited { // the watcher is restarted in between: same Watcher value, same client
+		r.restart("cancel", "", nil)
+	}
+	// 2. X exists now / the node has recovered: the contract answers its three methods
+	r.setShape(x, okShape)
+	// 3. the token bridge attests X, faithfully; a transfer right behind it as a control
+	b := r.oldBlock()
+	eg := r.mkEvent(b, msgSpec{sender: r.c.bridge, tc: 0, seq: uint64(1000 + g.r.Intn(1000)), nonce: g.r.Uint32(), cl: uint8(g.r.Intn(3)), payload: g.attestFor(x, "ok")})
+	et := r.mkEvent(b, msgSpec{sender: r.c.bridge, tc: 2, seq: uint64(2000 + g.r.Intn(1000)), nonce: g.r.Uint32(), cl: uint8(g.r.Intn(3)), payload: append([]byte{1}, g.bytesN(132)...)})
+	r.registerTx(eg, r.c.gov)
+	r.registerTx(et, r.c.gov)
+	batch := []*evSpec{eg, et}
+	if !poisonPoll {
+		batch = []*evSpec{ef, eg, et}
+	}
+	reobsFirst := g.chance(40)
+	if reobsFirst {
+		reobs(eg.tx)
+	}
+	tick(batch)
+	height(false)
+	if !reobsFirst || g.chance(50) {
+		reobs(eg.tx)
+	}
+	reobs(et.tx)
+	if !r.exited {
+		r.fetchTickEvs(tickScript{pageSize: 100, pageErr: -1}, nil)
+	}
+	for s := 0; s < 2 && !r.exited; s++ {
+		r.settle()
+		height(true)
+	}
+	r.stop()
+}
+
+// genMeta: every failing answer shape, three ways of meeting the failure (polling path, re-observation path, both), now and then
+// with a restart of the watcher in between.
+func (g *fgen) genMeta(rounds int) {
+	for i := 0; i < rounds; i++ {
+		for shape := 0; shape < 28; shape++ {
+			for v := 0; v < 3; v++ {
+				g.metaCase(shape, v+3*g.r.Intn(4))
+			}
+		}
+	}
+}
+
+// ---------------------------------------------------------------------------------------------
 // the height poller: while enabled it must pass on every polled height, changed or not (pending events can become final by
 // wall-clock time alone), and report an API error.
 //   fheight <id> seq=<h|e,..> got=<h|e|stall,..>
@@ -227,15 +410,20 @@ type tickScript struct {
 
 // fetchTick releases the parked count request and follows the real loop until the tick is over.
 func (r *watchRun) fetchTick(sc tickScript, allowMalformed bool) {
-	g, n := r.g, r.g.node
-	if !r.parked || r.exited {
-		panic("verif harness: fetchTick without a parked count request")
-	}
 	total := sc.newVisible
 	for _, k := range sc.growAfter {
 		total += k
 	}
-	evs := r.newEvents(total, allowMalformed, false)
+	r.fetchTickEvs(sc, r.newEvents(total, allowMalformed, false))
+}
+
+// fetchTickEvs: the same with the events given (sc.newVisible of them visible before the count request, the rest by sc.growAfter).
+func (r *watchRun) fetchTickEvs(sc tickScript, evs []*evSpec) {
+	g, n := r.g, r.g.node
+	if !r.parked || r.exited {
+		panic("verif harness: fetchTick without a parked count request")
+	}
+	total := len(evs)
 	n.mu.Lock()
 	n.events = append(n.events, evs...)
 	n.visible += sc.newVisible
@@ -244,6 +432,9 @@ func (r *watchRun) fetchTick(sc tickScript, allowMalformed bool) {
 	n.pageSize = sc.pageSize
 	n.pageReqs = 0
 	n.pageCap = 3*(total+2) + 20
+	if r.lives > 1 { // an incarnation that resumes from an older index may walk the whole log again
+		n.pageCap += 3 * len(n.events)
+	}
 	delete(n.errs, "count")
 	for k := range n.errs {
 		if strings.HasPrefix(k, "page:") {
@@ -267,8 +458,14 @@ func (r *watchRun) fetchTick(sc tickScript, allowMalformed bool) {
 		out = renderUnconfirmeds(us)
 		r.evB <- us
 		if r.barrier() {
-			<-n.arrive
-			r.parked = true
+			select {
+			case <-n.arrive:
+				r.parked = true
+			case <-r.errC: // the fetch loop ended right after the hand-over
+				r.exited = true
+			case <-r.panicC:
+				r.exited, r.panicked = true, true
+			}
 		}
 	case <-r.errC:
 		r.exited = true
@@ -392,4 +589,10 @@ func (g *fgen) genC09() {
 	for i := 0; i < nReobs; i++ {
 		g.reobsCase()
 	}
+	nRst, nMeta := 8, 1
+	if g.tier == "thorough" {
+		nRst, nMeta = 80, 8
+	}
+	g.genRestarts(nRst)
+	g.genMeta(nMeta)
 }
